@@ -328,6 +328,23 @@ def check_param(res, mag, uname, unit, order, fmtname):
     res.outcomes["param-ok" if ok else "param-WRONG"] += 1
     if not ok:
         res.violation("C20|Reaction.%s|param-magnitude-and-unit" % fmtname, "reaction with k = %s %s printed as %r, expected %r" % (mag, uname, got, exp), case, got, exp)
+        return
+    # the parameter of the SAME reaction object is re-assigned and the reaction printed again: the text shows the new one
+    # (i.e. equals the print of a fresh reaction carrying it)
+    res.evaluations += 1
+    try:
+        newp = 2.5 * float(mag) * unit  # same dimension, other magnitude
+        r.param = newp
+        again = getattr(r, fmtname)(subst, with_param=True) if fmtname != "string" else r.string(with_param=True)
+        fresh = Reaction(reac, {"C": 1}, newp)
+        want = getattr(fresh, fmtname)(subst, with_param=True) if fmtname != "string" else fresh.string(with_param=True)
+    except Exception as e:
+        again, want = "EXC %s" % type(e).__name__, None
+    if again != want or again == got:
+        res.outcomes["param-reassigned-STALE"] += 1
+        res.violation("C20|Reaction.%s|param-reassigned|stale-text" % fmtname, "after r.param = 2.5 x (%s %s) the reaction prints as %r, a fresh reaction with that parameter as %r" % (mag, uname, again, want), case, again, want)
+    else:
+        res.outcomes["param-reassigned-ok"] += 1
 
 
 def check_param_system(res, units_seq, fmtname):
